@@ -658,7 +658,14 @@ impl<Front: SocketHandler> ConnectionH1<Front> {
                     if let StreamState::Linked(token) = old_state {
                         remove_backend_stream(&mut context.backend_streams, token, stream_id);
                     }
-                    if stream.context.keep_alive_frontend {
+                    // A backend response carrying `Connection: close` is
+                    // forwarded with that header: the client expects this
+                    // connection to end with the response, and for a body
+                    // without Content-Length the close is its only delimiter.
+                    // Keeping the connection open would leave it idle until the
+                    // frontend timer, which then writes a 408 onto the tail of
+                    // the close-delimited body.
+                    if stream.context.keep_alive_frontend && stream.context.keep_alive_backend {
                         self.timeout_container.reset();
                         if let StreamState::Linked(token) = old_state {
                             endpoint.end_stream(token, stream_id, context);
